@@ -42,7 +42,7 @@ PROBE = {
 }
 CM = {"python": "#", "typescript": "//", "javascript": "//", "rust": "//"}
 FORMS = ["same-line", "next-line", "block", "file-top", "file-late", "thailintignore", "config-ignore", "linter-ignore"]
-SPELLINGS = ["full", "prefix", "wildcard", "alias", "upper", "bare"]
+SPELLINGS = ["full", "prefix", "wildcard", "alias", "alias-upper", "upper", "bare"]
 
 
 def _spelled(spelling, rule_id, prefix, aliases):
@@ -54,6 +54,8 @@ def _spelled(spelling, rule_id, prefix, aliases):
         return prefix + ".*"
     if spelling == "alias":
         return aliases[0] if aliases else None
+    if spelling == "alias-upper":
+        return aliases[0].title() if aliases else None
     if spelling == "upper":
         return rule_id.upper()
     return ""  # bare
@@ -99,7 +101,74 @@ def _setups():
 
 
 def items(tier: str, seed: int):
-    return [{"linter": n, "lang": lg, "pairs": tier == "thorough"} for n, lg in _setups()]
+    out = [{"linter": n, "lang": lg, "pairs": tier == "thorough"} for n, lg in _setups()]
+    out += [{"linter": "dry", "lang": lg, "dry_lines": True} for n, lg in _setups() if n == "dry"]
+    return out
+
+
+def _dry_lines(item) -> Acc:
+    """Line-scoped directives on a duplicate-code violation (reported in finalize, after all files
+    were read): same line / next line at the reported line, and a block wrapped around the whole
+    duplicated span; every way of naming the target (., sub-directory, file list, absolute)."""
+    import re  # noqa: PLC0415
+
+    acc = Acc()
+    lang = item["lang"]
+    files = dict(load.trigger_files("dry", lang))
+    cfg = load.trigger_config("dry", lang)
+    cm = CM[lang]
+    target = sorted(files)[0]
+    tops = sorted({p.split("/")[0] for p in files})
+
+    def run(fs, how):
+        root = project({**fs, ".thailint.yaml": yaml_dump(cfg)})
+        args = {"dot": ["."], "dirs": tops, "files": sorted(fs), "absolute": [str(root)]}[how]
+        r = obs.cli_json(["dry", *args], root)
+        vs = None if r["violations"] is None else sorted((t[0], t[1], t[2]) for t in obs.norm(r["violations"], root, root) if t[0].startswith("dry"))
+        msgs = {} if r["violations"] is None else {(t[1], t[2]): t[4] for t in obs.norm(r["violations"], root, root)}
+        remove(root)
+        return vs, msgs
+
+    for how in ("dot", "dirs", "files", "absolute"):
+        base, msgs = run(files, how)
+        acc.case()
+        mine = [t for t in (base or []) if t[1] == target]
+        if not mine:
+            acc.fail({"linter": "dry", "lang": lang, "mode": "baseline-empty", "target": how}, {"linter": "dry", "lang": lang, "dry_lines": True, "how": how}, "dry violations in " + target, base)
+            continue
+        n = mine[0][2]
+        m = re.search(r"\((\d+) lines", msgs[(target, n)])
+        span = int(m.group(1)) if m else 1
+        lines = files[target].split("\n")
+        for form in ("same-line", "next-line", "block-span"):
+            for spelling, name, names_me in (("full", "dry.duplicate-code", True), ("prefix", "dry", True), ("wildcard", "dry.*", True), ("upper", "DRY", True), ("bare", "", True), ("names-other-linter", "nesting", False)):
+                L = list(lines)
+                br = f"[{name}]" if name else ""
+                if form == "same-line":
+                    L[n - 1] += f"  {cm} thailint: ignore{br}"
+                    shift = lambda x: x  # noqa: E731
+                elif form == "next-line":
+                    L.insert(n - 1, f"{cm} thailint: ignore-next-line{br}")
+                    shift = lambda x: x + 1 if x >= n else x  # noqa: E731
+                else:
+                    L.insert(n - 1, f"{cm} thailint: ignore-start{(' ' + name) if name else ''}")
+                    L.insert(n + span, f"{cm} thailint: ignore-end")
+                    shift = lambda x: x + 1 if n <= x < n + span else (x + 2 if x >= n + span else x)  # noqa: E731
+                nf = {**files, target: "\n".join(L)}
+                got, _m = run(nf, how)
+                acc.case()
+                acc.edge()
+                acc.valid()
+                acc.nt(("dry-lines", lang, how, form, spelling))
+                in_scope = (lambda x: x == n) if form != "block-span" else (lambda x: n <= x < n + span)
+                want = sorted((t[0], t[1], shift(t[2]) if t[1] == target else t[2]) for t in base if not (names_me and t[1] == target and in_scope(t[2])))
+                if got != want:
+                    missing = [t for t in want if t not in (got or [])]
+                    extra = [t for t in (got or []) if t not in want]
+                    mode = "not-suppressed" if extra and not missing else ("over-suppressed" if missing and not extra else "differs")
+                    acc.fail({"linter": "dry", "lang": lang, "form": form, "mode": mode, "scope": "line-level-on-finalize-violation", "target": "any" if True else how, "names_it": names_me},
+                             {"linter": "dry", "lang": lang, "dry_lines": True, "how": how, "form": form, "spelling": spelling, "files": nf, "config": cfg, "cmd": "dry"}, want, got)
+    return acc
 
 
 def _other_cmd(name):
@@ -120,6 +189,8 @@ def _run(cmd, files, cfg, extra_files=None):
 
 
 def run_item(item) -> Acc:
+    if item.get("dry_lines"):
+        return _dry_lines(item)
     acc = Acc()
     name, lang = item["linter"], item["lang"]
     d = load.linters()[name]
@@ -265,16 +336,19 @@ def run_item(item) -> Acc:
 
 
 def replay_case(case) -> list[dict]:
-    fs = dict(case["files"])
+    fs = dict(case.get("files") or {})
     if case.get("extra_files"):
         fs.update(case["extra_files"])
     if case.get("config"):
         fs[".thailint.yaml"] = yaml_dump(case["config"])
     root = project(fs)
-    r = obs.cli_subprocess([case["cmd"], "--format", "json", "."], root)
+    r = obs.cli_subprocess([case.get("cmd", "dry"), "--format", "json", "."], root)
     for n, c in fs.items():
         print(f"--- {n} ---\n{c}")
-    print(f"$ thailint {case['cmd']} --format json .\nexit={r['exit_code']}\n{r['stdout'][:2000]}")
+    print(f"$ thailint {case.get('cmd', 'dry')} --format json .\nexit={r['exit_code']}\n{r['stdout'][:2000]}")
     remove(root)
+    if case.get("dry_lines"):
+        a = _dry_lines({"linter": "dry", "lang": case["lang"], "dry_lines": True})
+        return [f for f in a.failures if f["case"].get("form") == case.get("form") and f["case"].get("spelling") == case.get("spelling") and f["case"].get("how") == case.get("how")]
     a = run_item({"linter": case["linter"], "lang": case["lang"], "pairs": False})
     return [f for f in a.failures if f["signature"].get("form") == case["form"] and f["signature"].get("placement") in (case["placement"], "other-linter")]
